@@ -331,6 +331,7 @@ func (versionSuite) Run(raw json.RawMessage) []Step {
 				}
 			}
 			steps = append(steps, Step{Line: "v.cmp\t" + hx(op.A) + "\t" + hx(op.B), Go: out, Desc: fmt.Sprintf("CompareVersions(%q, %q)", op.A, op.B), Tags: []string{"cmp:" + out}, Trivial: out == "err"})
+			steps = append(steps, Step{Line: "tv.cmp\t" + hx(op.A) + "\t" + hx(op.B), Go: out, Desc: fmt.Sprintf("translated CompareVersions(%q, %q)", op.A, op.B), Tags: []string{"tv.cmp"}, Trivial: out == "err"})
 		case "con":
 			p := apk.ResolvePackageNameVersionPin(op.A)
 			n, v, d, pin := apk.VerifConstraintFields(p)
